@@ -847,7 +847,14 @@ func GenArrivals(r *hk.Rand, b *B, a *Arrivals, hit func(string)) {
 		b.File(p.spec.name, by, p.mtime, p.spec.mime)
 		hit("arrival:late-content-file")
 	}
+	late := len(a.pending) > 0
 	a.pending = nil
+	if late && r.Chance(50) {
+		// nothing but the announced files arrives in this phase: no claim invalidates anything
+		b.SyncCTimes()
+		hit("arrival:phase-of-late-files-only")
+		return
+	}
 	n := 1 + r.Intn(4)
 	for i := 0; i < n; i++ {
 		pns := b.MW.PNs
